@@ -125,16 +125,17 @@ theorem Paired.map_right {β γ : Type} {R : α → γ → Prop} (f : β → γ)
   | _, _, .nil => .nil
   | _, _, .cons hab t => .cons hab (Paired.map_right f t)
 
-/-- the groups of the sorted sweep over gene spans are the maximal chains of the chain relation,
-    and each group's hull is the least start / greatest end of its members -/
-theorem sweep_is_chain_partition (len c : Int) (hc : 0 ≤ c) (anchors sorted : List Loc)
-    (hperm : sorted.Perm anchors) (hsorted : Sorted Loc.start sorted) (hok : ∀ l ∈ anchors, GeneOK len l) :
-    IsChainPartition (fun a b => nearB 0 c a b = true) anchors
-        ((sweep Loc.start Loc.end c sorted).map Grp.members) ∧
+/-- the groups of the sorted sweep over gene spans are the maximal chains of any relation that
+    coincides with `reach` on the anchors, and each group's hull is the least start / greatest end of
+    its members -/
+theorem sweep_is_chain_partition_of (rel : Loc → Loc → Prop) (c : Int) (hc : 0 ≤ c) (anchors sorted : List Loc)
+    (hperm : sorted.Perm anchors) (hsorted : Sorted Loc.start sorted) (hwf : ∀ l ∈ anchors, l.start < l.end)
+    (hrel : ∀ a ∈ anchors, ∀ b ∈ anchors, rel a b ↔ reach Loc.start Loc.end c a b) :
+    IsChainPartition rel anchors ((sweep Loc.start Loc.end c sorted).map Grp.members) ∧
       ∀ g ∈ sweep Loc.start Loc.end c sorted, GInv Loc.start Loc.end c g := by
-  have hok' : ∀ l ∈ sorted, GeneOK len l := fun l hl => hok l (hperm.mem_iff.1 hl)
-  have hwf : ∀ x ∈ sorted, x.start < x.end := fun x hx => (hok' x hx).start_lt_end
-  have hinv := sweep_inv Loc.start Loc.end c hc sorted hsorted hwf
+  have hin : ∀ l ∈ sorted, l ∈ anchors := fun l hl => hperm.mem_iff.1 hl
+  have hwf' : ∀ x ∈ sorted, x.start < x.end := fun x hx => hwf x (hin x hx)
+  have hinv := sweep_inv Loc.start Loc.end c hc sorted hsorted hwf'
   have hflat := sweep_flatten Loc.start Loc.end c sorted
   have hmem : ∀ g ∈ sweep Loc.start Loc.end c sorted, ∀ m ∈ g.members, m ∈ sorted := by
     intro g hg m hm
@@ -150,18 +151,49 @@ theorem sweep_is_chain_partition (len c : Int) (hc : 0 ≤ c) (anchors sorted : 
     obtain ⟨G, hG, rfl⟩ := List.mem_map.1 hg
     refine (linked_of_chained (hinv G hG).chained a ha b hb).imp ?_
     intro x hx y hy hr
-    exact (nearB_line_iff len c hc x y (hok' x (hmem G hG x hx)) (hok' y (hmem G hG y hy))).2 hr
+    exact (hrel x (hin x (hmem G hG x hx)) y (hin y (hmem G hG y hy))).2 hr
   · intro gs₁ g gs₂ hsplit a ha g' hg' b hb
     obtain ⟨l₁, l₂, e, e1, e2⟩ := List.map_eq_append_iff.1 hsplit
     obtain ⟨G, t, rfl, rfl, rfl⟩ := List.map_eq_cons_iff.1 e2
     obtain ⟨G', hG', rfl⟩ := List.mem_map.1 hg'
     have hGm : G ∈ sweep Loc.start Loc.end c sorted := by rw [e]; simp
     have hG'm : G' ∈ sweep Loc.start Loc.end c sorted := by rw [e]; simp [hG']
-    have hsep := sweep_separated Loc.start Loc.end c hc sorted hsorted hwf l₁ G t e a ha G' hG' b hb
-    have hA := hok' a (hmem G hGm a ha)
-    have hB := hok' b (hmem G' hG'm b hb)
+    have hsep := sweep_separated Loc.start Loc.end c hc sorted hsorted hwf' l₁ G t e a ha G' hG' b hb
+    have hA := hin a (hmem G hGm a ha)
+    have hB := hin b (hmem G' hG'm b hb)
     constructor
-    · intro h; exact hsep ((nearB_line_iff len c hc a b hA hB).1 h)
-    · intro h; exact hsep (reach_symm ((nearB_line_iff len c hc b a hB hA).1 h))
+    · intro h; exact hsep ((hrel a hA b hB).1 h)
+    · intro h; exact hsep (reach_symm ((hrel b hB a hA).1 h))
+
+theorem sweep_is_chain_partition (len c : Int) (hc : 0 ≤ c) (anchors sorted : List Loc)
+    (hperm : sorted.Perm anchors) (hsorted : Sorted Loc.start sorted) (hok : ∀ l ∈ anchors, GeneOK len l) :
+    IsChainPartition (fun a b => nearB 0 c a b = true) anchors
+        ((sweep Loc.start Loc.end c sorted).map Grp.members) ∧
+      ∀ g ∈ sweep Loc.start Loc.end c sorted, GInv Loc.start Loc.end c g :=
+  sweep_is_chain_partition_of _ c hc anchors sorted hperm hsorted (fun l hl => (hok l hl).start_lt_end)
+    (fun a ha b hb => nearB_line_iff len c hc a b (hok a ha) (hok b hb))
+
+/-- the chain relation on a ring, for two spans inside an arc `[A, B)` of at most half the ring: the
+    way over the origin is never the shorter one, so it is `reach` as on a line -/
+theorem nearB_simple_ring (L c A B : Int) (hc : 0 ≤ c) (hL : L ≠ 0) (hhalf : 2 * (B - A) ≤ L) (p q : Part)
+    (hp : p.lo < p.hi) (hq : q.lo < q.hi) (hpA : A ≤ p.lo) (hpB : p.hi ≤ B) (hqA : A ≤ q.lo) (hqB : q.hi ≤ B) :
+    (sharesPts (.simple p) (.simple q) || decide (specDistFull L (.simple p) (.simple q) < c)) = true ↔
+      (p.lo < q.hi + c ∧ q.lo < p.hi + c) := by
+  by_cases hs : sharesPts (.simple p) (.simple q) = true
+  · have h2 := hs
+    simp only [sharesPts, Loc.parts, List.map_cons, List.map_nil, List.cons_append, List.nil_append,
+      List.any_cons, List.any_nil, Bool.or_false, Loc.mem, Part.mem, Bool.and_eq_true, Bool.or_eq_true,
+      decide_eq_true_eq] at h2
+    simp only [hs, Bool.true_or, true_iff]
+    omega
+  · have h2 := hs
+    simp only [sharesPts, Loc.parts, List.map_cons, List.map_nil, List.cons_append, List.nil_append,
+      List.any_cons, List.any_nil, Bool.or_false, Loc.mem, Part.mem, Bool.and_eq_true, Bool.or_eq_true,
+      decide_eq_true_eq] at h2
+    have hsf : sharesPts (.simple p) (.simple q) = false := by simpa using hs
+    simp only [hsf, Bool.false_or, decide_eq_true_eq, specDistFull, Bool.false_eq_true, if_false, specDist,
+      Loc.parts, List.map_cons, List.map_nil, List.flatMap_cons, List.flatMap_nil, List.append_nil, minList,
+      List.foldl_nil, specPartDist, hL]
+    split <;> (try split) <;> omega
 
 end ASV.Chains
